@@ -212,6 +212,14 @@ pub fn run(rep: &mut Report) {
     rep.bound("calendar_days", days.len() as u64);
     rep.rule = "calendar lattice (as C08) x 9 times of day (quick: 5 inside 1600-2400, 3 outside) x 9 scales: the count that denotes the date-time is decomposed by the real code (Display, to_gregorian_str, to_gregorian_utc/tai, the own-scale alternate formatter, year, month_name, day_of_year, duration_in_year, year_days_of_year) and rebuilt with maybe_from_gregorian; plus count -> decomposition -> rebuild on the epoch lattice EL(scale); plus the five alternate formatters against model conversions. Oracle: civil_from_days + reference renderer. Non-trivial = first/last nanosecond of a day, before the scale's zero, more than 1500 years from 1900.".into();
     rep.assumptions = vec!["C08 (construction) holds on the same lattice: the inverse direction is checked through maybe_from_gregorian".into()];
+    // order independence (depth-2 operation sequences on one thread): 18 dates (mirrored about 1900, leap classes, far
+    // years) x 2 times of day x 4 scales decomposed in every order
+    {
+        let od: Vec<i64> = [(1i64, 1i64, 1i64), (1, 3, 1), (4, 2, 29), (1400, 1, 1), (1582, 10, 15), (1899, 12, 31), (1900, 1, 1), (1900, 3, 1), (1972, 6, 30), (2000, 2, 29), (2016, 12, 31), (2017, 1, 1), (2024, 11, 30), (2400, 1, 1), (2400, 12, 31), (9999, 12, 31), (-400, 3, 1), (12_000, 7, 4)].iter().map(|(y, m, d)| days1900(*y, *m, *d)).collect();
+        let os = [TimeScale::TAI, TimeScale::UTC, TimeScale::GPST, TimeScale::TDB];
+        let no = od.len() as u64;
+        crate::engine::order_pairs(rep, "c09.order", no * 2 * 4, |i, out| j_fields(od[(i % no) as usize], [0i128, 86_399 * NS_S + 999_999_999][((i / no) % 2) as usize], os[(i / (2 * no)) as usize], out));
+    }
     let nd = days.len() as u64;
     // the implementation's cost grows with the distance from 1900; quick tier uses 3 of the 9 times of day outside 1600-2400
     let lo = days1900(1600, 1, 1);
